@@ -120,7 +120,51 @@ PROPS = {
         "rule": "O20: every valid colour of every parametrised small network x closed formulae; slice vs pick_witness network",
         "assumptions": EVAL_ASSUME,
     },
+    "C10": {
+        "module": "HctlProofs.Props.C10",
+        "theorems": ["Hctl.C10.sat_subst", "Hctl.C10.sat_subst_two", "Hctl.C10.raw_result_as_wild", "Hctl.C10.ext_empty_ctx"],
+        "ks": ["o10"],
+        "spec_tied": ["o10:pure_"],
+        "full": False,
+        "not_proved": "the evaluator-level corollary (results equal as sets) is obtained from sat_subst + evalPure_correct on the "
+                      "universe of points; the step 'all points visited by the semantics of f from a point of the universe stay in "
+                      "the universe' is not spelled out in Lean; benchmark-size leg is testing",
+        "rule": "O10: random (plain and extended) formulae, 1-3 closed sub-formulae replaced by wild-cards bound to their raw results; "
+                "plain formulae through the extended entry point with empty context; thorough: bundled 13/17-variable models",
+        "assumptions": EVAL_ASSUME,
+    },
+    "C11": {
+        "module": "HctlProofs.Props.C11",
+        "theorems": ["Hctl.C11.ef_unfold", "Hctl.C11.eg_unfold", "Hctl.C11.eu_unfold", "Hctl.C11.au_unfold",
+                     "Hctl.C11.ax_dual", "Hctl.C11.af_dual", "Hctl.C11.ag_dual", "Hctl.C11.au_dual",
+                     "Hctl.C11.ex_mono", "Hctl.C11.ef_mono", "Hctl.C11.eg_mono", "Hctl.C11.eu_mono", "Hctl.C11.au_mono",
+                     "Hctl.C11.ef_eq_reach_bwd", "Hctl.C11.eu_eq_reach_bwd_within", "Hctl.C11.ag_eq_trap_fwd",
+                     "Hctl.C11.ex_steady_selfloop", "Hctl.C11.ax_steady_selfloop"],
+        "ks": ["o11"],
+        "spec_tied": ["o11:pure_"],
+        "full": False,
+        "not_proved": "partial by nature: the theorems hold for the model at every size; model = code is checked at small sizes; "
+                      "at benchmark size (13/17-variable bundled models) the laws are evaluated on the implementation only (testing)",
+        "rule": "O11: 15 laws/dualities + monotonicity of 14 operator positions over random wild-card argument sets on all small "
+                "networks; EF/AG/EU vs reach_backward/trap_forward/constrained reachability; the laws on bundled benchmark models",
+        "assumptions": EVAL_ASSUME,
+    },
+    "C12": {
+        "module": "HctlProofs.Props.C12",
+        "theorems": ["Hctl.C12.attractor_pattern_exact", "Hctl.C12.fixedPoint_pattern_exact", "Hctl.C12.steady_shortcut_correct",
+                     "Hctl.C12.steady_shortcut_eq_generic", "Hctl.C12.attractor_shortcut_correct"],
+        "ks": ["o12", "k7"],
+        "spec_tied": ["o12:pure_", "k7:pure_"],
+        "full": False,
+        "not_proved": "the attractor shortcut is proved under the stated specification of the external attractor algorithm "
+                      "(terminal SCCs; hypothesis hattr); the model's own breadth-first computation of it is compared with the "
+                      "library's result by K7 (request `attractors`) but not proved equal to the specification in Lean",
+        "rule": "O12: 18 pattern / near-miss formulae vs pattern-defeating rewrites, at top level, under operators, in quantifier and "
+                "domain scopes, in batches, on all networks (incl. constrained parameters), random domain sets",
+        "assumptions": EVAL_ASSUME,
+    },
 }
+
 # what MANIFEST.json says per property
 MANIFEST_TEXT = {
     "C05": {
@@ -162,6 +206,18 @@ MANIFEST_TEXT.update({
                "without steady states both compute the satisfying points."),
     "C20": _ev("Lean theorem: satisfaction at a colour mentions only that colour's transition system, hence colour slices agree between "
                "graphs agreeing on that colour; oracle compares every valid colour's slice with the pick_witness network."),
+})
+
+MANIFEST_TEXT.update({
+    "C10": _ev("Lean theorem sat_subst: replacing any sub-formula by a wild-card that holds exactly where the sub-formula holds leaves "
+               "satisfaction unchanged, at any position and for any number of replacements; raw results have that property on valid "
+               "colours (from evalPure_correct). Oracle substitutes raw results through the public API, small and benchmark models."),
+    "C11": _ev("Lean theorems for arbitrary argument sets on arbitrary graphs: unfolding laws of EF/EG/EU/AU, dualities, monotonicity, "
+               "EF/EU = (constrained) backward reachability, AG = forward-closed subset, steady states as self-loops. Oracle "
+               "evaluates the laws and the library reachability functions on small and bundled benchmark models."),
+    "C12": _ev("Lean theorems: the pattern matchers accept exactly the two patterns; the steady-state shortcut equals the generic "
+               "evaluation of !{x}: AX {x} in any admissible universe (incl. domain scopes); the attractor shortcut equals !{x}: AG EF {x} "
+               "under the terminal-SCC specification of the external algorithm. Oracle compares patterns with pattern-defeating rewrites."),
 })
 
 ALL_IDS = ["C%02d" % i for i in range(1, 21)]
